@@ -108,6 +108,14 @@ func TestIndexStability(t *testing.T) {
 				runs := rapid.IntRange(2, 4).Draw(t, "runs")
 				for r := 0; r < runs; r++ {
 					blind := gen.P384KeyBytes().Draw(t, "blind")
+					switch gen.Uniform(t, 8, "oddBlind") {
+					case 0: // a blind whose value is >= N (the API takes any byte string)
+						blind = new(big.Int).Add(elliptic.P384().Params().N, big.NewInt(int64(gen.Uniform(t, 70000, "over")))).Bytes()
+					case 1:
+						blind = bytes.Repeat([]byte{0xff}, 48)
+					case 2:
+						blind = append([]byte{1}, gen.Bytes(t, 55, 55, "wideBlind")...)
+					}
 					chal, nonce := gen.Challenge().Draw(t, "challenge"), gen.Bytes32().Draw(t, "nonce")
 					st, err := client.CreateTokenRequest(chal, nonce, blind, iss.TokenKeyID(), iss.TokenKey(), origin, iss.NameKey())
 					if err != nil {
